@@ -36,3 +36,88 @@ def _prep_loss(loss, phases):
         maxloss = 1.0
     df["Mix"] = df["Loss (W)"].to_numpy() / maxloss
     return df
+
+
+def _diag(
+    sys,
+    *,
+    fname=None,
+    group=True,
+    config={},
+    loss=None
+):
+    """Create diagram"""
+    if config == {}:
+        bd_conf = copy.deepcopy(_DEF_CONF)
+    else:
+        bd_conf = copy.deepcopy(config)
+    gname = sys._g.attrs["name"]
+    if loss is not None:
+        gname += " - Loss heat map"
+    graph = pydot.Dot("sysLoss", label=gname, **bd_conf["graph"])
+
+    def add_node(gr, name, attrs, ldf):
+        comp = type(sys._g[sys._g.attrs["nodes"][name]]).__name__
+        conf = copy.deepcopy(attrs["default"])
+        # component type overrieds
+        if comp in attrs:
+            for key in attrs[comp]:
+                conf[key] = attrs[comp][key]
+        # component instance overrides
+        if name in attrs:
+            for key in attrs[name]:
+                conf[key] = attrs[name][key]
+        if ldf is not None:
+            conf["fillcolor"] = _gcolor(ldf[ldf.Component == name]["Mix"].to_list()[0])
+            conf["fontcolor"] = "silver"
+            conf["label"] = "{}\n{}W".format(
+                name, _nice_float(ldf[ldf.Component == name]["Loss (W)"].to_list()[0])
+            )
+        gr.add_node(pydot.Node(name, **conf))
+
+    # heat diagram operations
+    ldf = None
+    if loss is not None:
+        ldf = _prep_loss(loss, sys.get_sys_phases())
+
+    # find groups
+    groups = {}
+    for n in sys._g.attrs["groups"].keys():
+        g = sys._g.attrs["groups"][n]
+        if g != "":
+            groups[g] = 1
+    # create clusters
+    if group and groups != {}:
+        for g in groups.keys():
+            cconf = copy.deepcopy(bd_conf["cluster"]["default"])
+            if g in bd_conf["cluster"]:
+                for key in bd_conf["cluster"][g]:
+                    cconf[key] = bd_conf["cluster"][g][key]
+            sg = pydot.Subgraph("cluster_" + g, label=g, **cconf)
+            for n in sys._g.attrs["nodes"]:
+                if sys._g.attrs["groups"][n] == g:
+                    add_node(sg, n, bd_conf["node"], ldf)
+            graph.add_subgraph(sg)
+    # non-clustered nodes
+    for n in sys._g.attrs["nodes"]:
+        if sys._g.attrs["groups"][n] == "" or not group:
+            add_node(graph, n, bd_conf["node"], ldf)
+    # color gradient
+    if loss is not None:
+        gconf = copy.deepcopy(_DEF_GRADIENT)
+        gconf["label"] = "{}W|  |  | 0W".format(_nice_float(ldf["Loss (W)"].max()))
+        rd = bd_conf["graph"]["rankdir"]
+        if rd == "TB" or rd == "BT":
+            gconf["label"] = "{" + gconf["label"] + "}"
+        graph.add_node(pydot.Node("Scale", **gconf))
+    # edges
+    p = dict(zip(sys._g.attrs["nodes"].values(), sys._g.attrs["nodes"].keys()))
+    for e in iter(sys._g.edge_indices()):
+        ep = sys._g.get_edge_endpoints_by_index(e)
+        graph.add_edge(pydot.Edge(p[ep[0]], p[ep[1]], **bd_conf["edge"]))
+    # output image
+    if fname == None:
+        img = Image.open(io.BytesIO(graph.create_png(prog="dot")))
+        return img
+    graph.write(fname, prog="dot", format=fname.split(".")[-1])
+    return None
